@@ -4,12 +4,14 @@ import (
 	"fmt"
 	"net/netip"
 	"testing"
+	"time"
 
 	"github.com/gopacket/gopacket"
 	"pgregory.net/rapid"
 
 	"github.com/scionproto/scion/pkg/addr"
 	"github.com/scionproto/scion/pkg/slayers"
+	"github.com/scionproto/scion/router"
 
 	"verif/internal/evid"
 	"verif/internal/netsim"
@@ -71,12 +73,18 @@ func reverse(xs []string) []string {
 
 func TestC10(t *testing.T) {
 	rec := evid.New("C10", "rapid: the C02 topologies and paths; per path either (a) one MAC bit of a drawn hop is flipped, or (b) a router-alert flag is set on the ingress or egress side of a drawn AS and the payload is an SCMP traceroute request. "+
+		"Additionally, per case, one forged valid traceroute request (C01 forge, all path shapes) with one router-alert flag on a single real router whose links have BFD sessions that are down: the flagged interface is reported although the egress link is down. "+
 		"The router's answer is walked back through the real routers: it must be accepted everywhere, cross the request's interfaces in reverse and be handed to the source host (port = quoted UDP source port resp. traceroute identifier); "+
 		"traceroute: answered by the router owning the flagged interface with IA/interface/identifier/sequence as expected. Non-trivial: answer raised after a cross-over, on a peering path, by a router reached over a sibling link, or on a 3-segment path.")
 	defer rec.Flush(t)
-	rec.Assume("causes needing BFD (interface down) are covered by C15; expiry by C01", "hosts are IPv4/IPv6 with ports/identifiers inside the dispatched range 1024-65535")
-	rec.Require("scmp_error_back", "traceroute_ingress", "traceroute_egress", "raised_after_xover", "raised_via_sibling", "peering", "segments_3", "raised_at_source_as")
+	rec.Assume("interface-down errors themselves are covered by C15 (the network of this check runs without BFD; the single-router part below has BFD sessions that are down); expiry by C01", "hosts are IPv4/IPv6 with ports/identifiers inside the dispatched range 1024-65535")
+	rec.Require("scmp_error_back", "traceroute_ingress", "traceroute_egress", "raised_after_xover", "raised_via_sibling", "peering", "segments_3", "raised_at_source_as", "traceroute_flagged_interface_down")
 	rapid.Check(t, func(rt *rapid.T) {
+		if l, nt, msg := c10FlaggedOnDownInterface(rt); msg != "" {
+			rt.Fatalf("%s", msg)
+		} else if l != "" {
+			rec.Case(nt, "", l)
+		}
 		n := buildNet(rt, false)
 		defer n.Close()
 		eachPath(rt, n, 10, func(pc pathCase) {
@@ -240,4 +248,88 @@ func TestC10(t *testing.T) {
 			})
 		})
 	})
+}
+
+// c10FlaggedOnDownInterface: a traceroute request whose router-alert flag designates an interface of
+// this router is answered with that interface, whatever the state of the egress link (the flag is
+// what lets traceroute pinpoint a failed link). One real router (the lab of C01), BFD enabled on a
+// drawn set of links and never brought up, i.e. those links are down.
+func c10FlaggedOnDownInterface(rt *rapid.T) (label string, nontrivial bool, fail string) {
+	bfdOn := map[uint16]bool{}
+	for _, x := range labIfs {
+		if x.owner != 3 && rapid.Bool().Draw(rt, fmt.Sprintf("bfdDown%d", x.id)) {
+			bfdOn[x.id] = true
+		}
+	}
+	l := newLab(func(f string, a ...any) { fail = fmt.Sprintf(f, a...) }, labCfg{master: rapid.SliceOfN(rapid.Byte(), 16, 16).Draw(rt, "labKey"), bfd: bfdOn})
+	if fail != "" {
+		return "", false, "harness: " + fail
+	}
+	k := genForge(rt, l, time.Now())
+	var sides []string
+	if k.arrival == "ext" {
+		sides = append(sides, "ingress")
+	}
+	if k.outIf != 0 && labIfByID(k.outIf).owner == 1 {
+		sides = append(sides, "egress")
+	}
+	if len(sides) == 0 {
+		return "", false, ""
+	}
+	side := rapid.SampledFrom(sides).Draw(rt, "flaggedSide")
+	wantIf := k.inIf
+	if side == "ingress" {
+		if k.consdir[k.segOf(k.h)] {
+			k.hops[k.h].IngressRouterAlert = true
+		} else {
+			k.hops[k.h].EgressRouterAlert = true
+		}
+	} else {
+		wantIf = k.outIf
+		if k.consdir[k.segOf(k.vHop)] {
+			k.hops[k.vHop].EgressRouterAlert = true
+		} else {
+			k.hops[k.vHop].IngressRouterAlert = true
+		}
+	}
+	sc, err := k.scionLayer()
+	if err != nil {
+		return "", false, "harness: " + err.Error()
+	}
+	sc.NextHdr = slayers.L4SCMP
+	ident, seq := uint16(rapid.IntRange(1024, 65535).Draw(rt, "labIdent")), rapid.Uint16().Draw(rt, "labSeq")
+	hdr := &slayers.SCMP{TypeCode: slayers.CreateSCMPTypeCode(slayers.SCMPTypeTracerouteRequest, 0)}
+	hdr.SetNetworkLayerForChecksum(sc)
+	buf := gopacket.NewSerializeBuffer()
+	if err := gopacket.SerializeLayers(buf, gopacket.SerializeOptions{FixLengths: true, ComputeChecksums: true}, sc, hdr, &slayers.SCMPTraceroute{Identifier: ident, Sequence: seq}); err != nil {
+		return "", false, "harness: " + err.Error()
+	}
+	raw := append([]byte{}, buf.Bytes()...)
+	r := l.inject(k, raw)
+	down := k.outIf != 0 && bfdOn[k.outIf]
+	desc := fmt.Sprintf("traceroute request flagged for the %s side (interface %d), egress %d down=%v: %v", side, wantIf, k.outIf, down, k)
+	if r.res.Disposition != router.VerifDispSlowPath || r.sErr != nil || r.scmp == nil {
+		return "", false, fmt.Sprintf("%s: not answered (disposition %d egress %d, slow path error %v)", desc, r.res.Disposition, r.res.Egress, r.sErr)
+	}
+	si, err := decodeSCMP(r.scmp)
+	if err != nil {
+		return "", false, fmt.Sprintf("%s: %v", desc, err)
+	}
+	if si.typ != slayers.SCMPTypeTracerouteReply {
+		return "", false, fmt.Sprintf("%s: answered with SCMP type %d code %d instead of a traceroute reply", desc, si.typ, si.code)
+	}
+	var tr slayers.SCMPTraceroute
+	if err := tr.DecodeFromBytes(si.body, gopacket.NilDecodeFeedback); err != nil {
+		return "", false, fmt.Sprintf("%s: traceroute reply does not decode: %v", desc, err)
+	}
+	if tr.IA != labLocal || tr.Interface != uint64(wantIf) || tr.Identifier != ident || tr.Sequence != seq {
+		return "", false, fmt.Sprintf("%s: traceroute reply reports %s#%d id=%d seq=%d, expected %s#%d id=%d seq=%d", desc, tr.IA, tr.Interface, tr.Identifier, tr.Sequence, labLocal, wantIf, ident, seq)
+	}
+	if si.scion.DstIA != k.srcIA {
+		return "", false, fmt.Sprintf("%s: reply addressed to %s", desc, si.scion.DstIA)
+	}
+	if down {
+		return "traceroute_flagged_interface_down", true, ""
+	}
+	return "traceroute_flagged_interface_up", false, ""
 }
